@@ -171,6 +171,40 @@ def generate(repo):
                     problems.append('anchor not found: ' + k)
         else:
             problems.append('anchor not found: enum DescriptionLevel')
+        # --- key syntax name[!][,alias][,@level]: the characters OptionInitHelper::operator() looks for, the base of the level number,
+        #     the width of the `unsigned` the level is accumulated in (harness compiler) and the bound it is checked against
+        b = func_body(p, r'OptionInitHelper&\s+OptionInitHelper::operator\(\)\(const char\*\s*name,\s*Value\*\s*val,\s*const char\*\s*desc\)\s*\{', problems, 'OptionInitHelper::operator()')
+        m = re.search(r"strchr\(name,\s*'(.)'\)", b)
+        m2 = re.search(r"\*name\s*==\s*'(.)'\s*\|\|\s*\*name\s*==\s*'(.)'", b)
+        if m and m2 and m2.group(1) == m.group(1):
+            zconst('KEY_SEP', ord(m.group(1)), "key syntax: separator of the parts")
+        else:
+            problems.append("anchor not found: strchr(name, ',') / *name == ','")
+        m = re.search(r"\*\(longName\.end\(\)\s*-\s*1\)\s*==\s*'(.)'", b)
+        if m and m2 and m2.group(2) == m.group(1):
+            zconst('KEY_NEG', ord(m.group(1)), "key syntax: negatable marker")
+        else:
+            problems.append("anchor not found: *(longName.end()-1) == '!' / *name == '!'")
+        m = re.search(r"\*\(longName\.end\(\)\s*-\s*2\)\s*!=\s*'(\\\\|.)'", b)
+        if m:
+            zconst('KEY_ESC', ord(unesc(m.group(1))), "key syntax: escape in front of a literal '!'")
+        else:
+            problems.append("anchor not found: *(longName.end()-2) != '\\\\'")
+        m = re.search(r"\*x\s*==\s*'(.)'\)\s*\{\s*\+\+x;\s*level\s*=\s*(\d+)\s*;", b)
+        if m and int(m.group(2)) == 0:
+            zconst('KEY_LEVEL', ord(m.group(1)), "key syntax: introducer of the level")
+        else:
+            problems.append("anchor not found: if (*x == '@') { ++x; level = 0;")
+        m = re.search(r"\*x\s*>=\s*'(.)'\s*&&\s*\*x\s*<=\s*'(.)'\)\s*\{\s*level\s*\*=\s*(\d+)\s*;\s*level\s*\+=\s*\*x\s*-\s*'(.)'", b)
+        if m and m.group(1) == m.group(4):
+            zconst('KEY_DIGIT_LO', ord(m.group(1)), 'key syntax: first digit')
+            zconst('KEY_DIGIT_HI', ord(m.group(2)), 'key syntax: last digit')
+            zconst('KEY_BASE', int(m.group(3)), 'key syntax: base of the level number')
+        else:
+            problems.append("anchor not found: level *= 10; level += *x - '0'")
+        if not re.search(r'unsigned\s+level\b', b) or not re.search(r'level\s*>\s*desc_level_hidden', b):
+            problems.append('anchor not found: unsigned level ... level > desc_level_hidden')
+        zconst('UINT_MOD', 2 ** 32, 'range of `unsigned` (the level of a key is accumulated in an unsigned)')
         if not re.search(r'descLevel_\s*=\s*std::min\(x,\s*desc_level_all\)', p):
             problems.append('anchor not found: setActiveDescLevel clamps to desc_level_all')
     except OSError as ex:
